@@ -4,3 +4,14 @@ import Lean.Meta.Tactic.Simp.RegisterCommand
   from the client sources (see `Rsdns.Lemmas.Guards`).
 -/
 register_simp_attr guard_eq
+
+/-- closes `generated expression = closed form` goals however the source spells the expression: by
+    computation, by `simp`, by `grind`, or by `simp` followed by linear arithmetic — so that `b != a` for
+    `a != b`, `size <= len` for `len >= size`, `!(a < b)` for `a >= b` or reordered conjuncts do not stop
+    the development from checking, while a different function does -/
+macro "guard_closed" : tactic =>
+  `(tactic| first
+    | rfl
+    | (simp; done)
+    | grind
+    | (simp <;> omega))
